@@ -1100,7 +1100,18 @@ class World:
                 self.check_protected("final close")
         for r in sorted(self.recs.values(), key=lambda x: x.idx):
             if r.exists:
-                self.op_open({"rec": r.idx, "mode": "r", "by": "name"})
+                n = len(r.disk)
+                self.probe("final_chain_len_" + ("1" if n == 1 else "2-4" if n <= 4 else "5-10" if n <= 10 else "11+"))
+                try:
+                    self.op_open({"rec": r.idx, "mode": "r", "by": "name"})
+                except Violation as v:
+                    if v.v["prop"] == "C03":
+                        # reading the closed record does not show the tree that was written:
+                        # this is C01's observation as well (n containers, read by name)
+                        v1 = Violation("C01", "reopened-view", f"record of {n} container(s) read back by name after close: {v.v['detail']}", shape=v.v["oracle"])
+                        v1.also = [v.v]
+                        raise v1
+                    raise
                 r.obj.close()
                 r.obj = None
                 self.check_protected("final reopen")
